@@ -71,17 +71,16 @@ def rulePure (ctx : Ctx) (r : Rule) (d : Int) : Option Schedule :=
 day and on the day before -/
 structure RuleOK (ctx : Ctx) (r : Rule) (d : Int) : Prop where
   wf : r.day.wf = true
-  scope : selScope ctx r.day = true
   dated : DatedAgreeSel r.day d
   dated1 : DatedAgreeSel r.day (d - 1)
 
 theorem filter_today (ctx : Ctx) (r : Rule) (d : Int) (h : RuleOK ctx r d)
     (h1 : dateStart ≤ d) (h2 : d < dateEnd) : r.day.filter ctx d = .ok (applies ctx r d) :=
-  daySelectorFilter_eq ctx r.day d h.wf h.scope h.dated (by omega) h2
+  daySelectorFilter_eq ctx r.day d h.wf h.dated (by omega) h2
 
 theorem filter_yesterday (ctx : Ctx) (r : Rule) (d : Int) (h : RuleOK ctx r d)
     (h1 : dateStart ≤ d) (h2 : d < dateEnd) : r.day.filter ctx (d - 1) = .ok (applies ctx r (d - 1)) :=
-  daySelectorFilter_eq ctx r.day (d - 1) h.wf h.scope h.dated1 (by omega) (by omega)
+  daySelectorFilter_eq ctx r.day (d - 1) h.wf h.dated1 (by omega) (by omega)
 
 /-- `rule_sequence_schedule_at` succeeds as soon as the two selector evaluations do -/
 theorem ruleScheduleAt_eqB (ctx : Ctx) (r : Rule) (d : Int) (a a1 : Bool)
